@@ -164,4 +164,14 @@ PROPS = {
         level_text="For each sampled input set, merge and explode are enumerated over all their file-system operations: after every outcome no repository id is alive in two loadable *.zoekt files; a completed call that returned no error must have produced the documented post-state (merge: every input repository exactly in the returned compound shard, inputs gone; explode: every repository exactly in its own simple shard, compound shard gone).",
         level_note="Exhaustive over operations per sampled input set.",
     ),
+    "C10": dict(
+        group="buildsim", level="exploration", rule=SCHED_RULE,
+        harnesses=[dict(name="C10", quick=260, thorough=20000, quick_deadline_s=170, thorough_deadline_s=1500, ulimit_kb=24000000, env={"VERIF_GCPERCENT": "50", "VERIF_MEMLIMIT_MB": "3072"})],
+        expect_probes=["pool-hit", "pool-miss"],
+        components={"real": ["index.Builder with Parallelism 1-16 (flush goroutines, throttle channel, errMu, WaitGroup)", "postingsBuilder pooling (sync.Pool -> simulated pool whose hit/miss and object choice come from the tape)", "ShardBuilder.Write, index.Merge", "search.NewDirectorySearcher as observer"], "stub": ["goroutine scheduling", "sync primitives", "sync.Pool"]},
+        assumptions=COMMON_ASSUME + ["claim limited to the concurrency/pooling/shard-split/insertion-order/compound dimension; corpora are sampled (3-18 small documents per repository, two repositories)", "ranking order and scores are not compared (the property is about which documents, matches and branches are found)"],
+        technique="deterministic simulation: two concurrent index builds under seeded schedules with simulated buffer-pool reuse, varying parallelism, shard limits and insertion order; self-differential against a sequential single-shard build",
+        level_text="Two repositories (3-18 generated documents, 1-2 branches, occasional binary documents) are indexed concurrently under the seeded scheduler with Parallelism 1/2/4/16, ShardMax forcing 1..many shards, permuted Add order and tape-chosen reuse of pooled postings builders, optionally merged into a compound shard; a fresh directory searcher must return, for 7 fixed queries, exactly the files, contents, line matches and branches of the sequential one-shard-per-repository reference build.",
+        level_note="Samples schedules and corpora; builds dominate the cost (about 0.3-1 s per run).",
+    ),
 }
